@@ -133,6 +133,22 @@ def _length_leaves(fn, op, depth=6):
     return False
 
 
+def mech_const_clamp(site):
+    """x.clamp(lo, hi) with constant lo <= hi never panics"""
+    if site.call is not None and short(site.call.name).endswith("::clamp") and len(site.call.args) == 3:
+        vals = []
+        for a in site.call.args[1:]:
+            if a["k"] != "const":
+                return None
+            m = re.match(r"^(-?[0-9][0-9_]*(?:\.[0-9_]+)?(?:[eE][+-]?[0-9]+)?)_?(f64|f32|i\d+|u\d+|isize|usize)?$", a.get("v", ""))
+            if not m:
+                return None
+            vals.append(float(m.group(1).replace("_", "")))
+        if vals[0] <= vals[1]:
+            return "clamp to constant bounds %s <= %s" % (vals[0], vals[1])
+    return None
+
+
 def mech_lengths(site):
     if site.kind == "cast" and site.stmt is not None:
         rv = site.stmt["rv"]
@@ -349,7 +365,7 @@ def run_inventory(R, rid, root_name, desc, restrict=None):
     for key in sorted(by_key):
         ss = by_key[key]
         for idx, s in enumerate(sorted(ss, key=lambda s: (s.file, s.line))):
-            how = mech_const_divisor(s) or mech_counter(s) or mech_const_ctor(s) or mech_lengths(s)
+            how = mech_const_divisor(s) or mech_counter(s) or mech_const_ctor(s) or mech_lengths(s) or mech_const_clamp(s)
             if how:
                 R.ok(rid, key, "mechanical: " + how, s.loc(), nontrivial=False)
                 continue
